@@ -308,3 +308,62 @@ func R74() Rule {
 		}
 	}}
 }
+
+// ---------------------------------------------------------------------------
+// R75: a table definition is persisted under the lock that serialises its changes.
+//
+// C08: after a restart the emulator serves "the … column families with their GC
+// rules … produced by all acknowledged requests".  ModifyColumnFamilies changes
+// table.def under table.mu; if the definition (or a clone of it) is handed to
+// Storage.SetTableMeta after the lock is released, two concurrent requests can
+// persist in the opposite order to the one they were applied in: both are
+// acknowledged, the live server shows both, and the file on disk keeps the
+// older definition.  Structural necessary condition: every SetTableMeta call
+// reached from an RPC that mutates table.def happens with table.mu held for
+// writing (and Storage.Create, which writes the first definition, with the
+// registry mutex held).
+// ---------------------------------------------------------------------------
+
+func R75() Rule {
+	return Rule{Name: "R75", Run: func(c *core.Ctx) {
+		P := c.P
+		if P.SPkgs[core.PkgBttest] == nil {
+			return
+		}
+		la := Locks(P)
+		n := 0
+		for _, fn := range P.SrcFuncs(core.PkgBttest) {
+			if nm := core.FuncName(core.Root(fn)); len(nm) < 9 || nm[:9] != "(*server)" {
+				continue // the storage implementations' own calls (Create → SetTableMeta) run under their caller's lock
+			}
+			k := 0
+			for _, ci := range core.AllCalls(fn) {
+				var need, what string
+				switch {
+				case ci.IsIfaceMethod(core.PkgBttest, "Storage", "SetTableMeta"):
+					need, what = "bttest.table.mu", "the table definition is persisted"
+				case ci.IsIfaceMethod(core.PkgBttest, "Storage", "Create"):
+					need, what = "bttest.server.mu", "the new table's storage (and first definition) is created"
+				default:
+					continue
+				}
+				if _, pre := la.roots[core.Root(fn)]; pre && core.FuncName(core.Root(fn)) == "NewServerWithOptions" {
+					continue
+				}
+				n++
+				k++
+				c.Fn(core.FuncName(core.Root(fn)))
+				construct := fmt.Sprintf("%s/Storage.%s#%d/under-%s", core.FuncName(core.Root(fn)), ci.Method.Name(), k, need)
+				_, async := ci.Instr.(*ssa.Go)
+				if !async && la.AbsAt(ci.Instr)[need] == mW {
+					c.Ok("R75", construct, ci.Instr.Pos(), true, "%s with %s held for writing", what, need)
+				} else {
+					c.Bad("R75", construct, ci.Instr.Pos(), "%s without %s held for writing: two concurrent requests can persist in the opposite order to the one in which they were applied (or the second creation can overwrite the first one's files), so after a restart the emulator serves an older definition than the one both acknowledged requests left behind", what, need)
+				}
+			}
+		}
+		if n < 2 {
+			c.Unknown("R75", "floor/persist-sites", token.NoPos, "only %d persistence calls found in the RPC methods", n)
+		}
+	}}
+}
